@@ -28,6 +28,9 @@
   * `print nl s kinds`: appends `(nl, value s)` to the trace; only the temporaries of the
     |kinds| context positions survive (every other temporary becomes undefined).
   * `save t _` copies `t` into a scratch cell, `restore t _` copies it back (parallel_moves.rs).
+  * `mov`, `save`, `restore` COPY a temporary including its definedness (copying an undefined
+    temporary is not an error, the target becomes undefined); every other read of an undefined
+    temporary is `stuck`.
   * TEMP is scratch: every instruction that does not have TEMP as its target leaves it undefined.
   * Division: signed; divisor 0 is `stuck div-by-zero`; MIN / −1 is `stuck div-overflow`.
 -/
@@ -95,6 +98,12 @@ def Temps.get (σ : Temps) (t : Nat) : Option Word :=
 def Temps.unset (σ : Temps) (t : Nat) : Temps := σ.filter (fun e => e.1 != t)
 
 def Temps.set (σ : Temps) (t : Nat) (v : Word) : Temps := (t, v) :: σ.unset t
+
+/-- copy a possibly undefined value -/
+def Temps.put (σ : Temps) (t : Nat) (v : Option Word) : Temps :=
+  match v with
+  | some w => σ.set t w
+  | none => σ.unset t
 
 abbrev Heap := List (Nat × Obj)
 
@@ -275,7 +284,7 @@ def step (p : Program) (c : Config) : StepRes :=
         match evalBinOp o va vb with
         | .error e => stuck e
         | .ok v => adv ((if t == T_TEMP then σ else clobberTemp σ).set t v)
-    | .mov t s => getT σ s fun v => adv ((if t == T_TEMP then σ else clobberTemp σ).set t v)
+    | .mov t s => adv ((if t == T_TEMP then σ else clobberTemp σ).put t (σ.get s))
     | .print nl s kinds =>
       getT σ s fun v =>
         .next { c with pc := c.pc + 1, temps := keepPositions σ kinds.length, out := (nl, v) :: c.out }
@@ -317,12 +326,8 @@ def step (p : Program) (c : Config) : StepRes :=
                   match (c.heap.set ref.toNat { o with count := o.count - 1 }).shareAll o.children with
                   | .error e => stuck e
                   | .ok h => .next { c with pc := c.pc + 1, temps := σ', heap := h }
-    | .save t _ =>
-      getT σ t fun v => .next { c with pc := c.pc + 1, temps := clobberTemp σ, scratch := some v }
-    | .restore t _ =>
-      match c.scratch with
-      | none => stuck "restore: scratch undefined"
-      | some v => adv ((if t == T_TEMP then σ else clobberTemp σ).set t v)
+    | .save t _ => .next { c with pc := c.pc + 1, temps := clobberTemp σ, scratch := σ.get t }
+    | .restore t _ => adv ((if t == T_TEMP then σ else clobberTemp σ).put t c.scratch)
 
 def runFrom (p : Program) : Nat → Config → Behaviour
   | 0, c => ⟨c.out.reverse, .outOfFuel⟩
